@@ -210,7 +210,7 @@ func (r *Reader) newResult(labels Labels, lineNum int, name, content string) *Re
 		LineNum: lineNum,
 		Content: content,
 	}
-	if r.lastName != name {
+	if r.lastNameLabels == nil || r.lastName != name {
 		r.lastName = name
 		r.lastNameLabels = make(Labels)
 		parseNameLabels(name, r.lastNameLabels)
